@@ -3,4 +3,4 @@ package main
 
 import "verifharness/h2rig"
 
-func main() { h2rig.Main("c09_prop_ok", "c09_failures") }
+func main() { h2rig.Main("c09_failures") }
